@@ -5,6 +5,7 @@ import (
 	"go/ast"
 	"go/token"
 	"go/types"
+	"strings"
 
 	"verif/checker/core"
 )
@@ -185,4 +186,85 @@ func nonEmptyArg(rc *core.RC, fd *ast.FuncDecl, cf *core.FuncCFG, at ast.Node, a
 		return true
 	})
 	return found, why
+}
+
+// ---- C20.R2 a document key is unescaped before it is compared with a selector ----
+
+// In DecodePath methods the name handed to Path.Field (or PathNode.Field) must be the decoded
+// key text: the result of a stringDecoder method. A slice of the input buffer is the key as it
+// is spelled, with its escape sequences, and never equals the selector for a member written as
+// {"a":1}.
+func c20r2(rc *core.RC) {
+	p := rc.P
+	n := 0
+	for _, fd := range p.Funcs("decoder") {
+		if fd.Body == nil || fd.Recv == nil || fd.Name.Name != "DecodePath" {
+			continue
+		}
+		info := p.Info(fd)
+		fn := p.FuncName(fd)
+		ast.Inspect(fd.Body, func(m ast.Node) bool {
+			call, ok := m.(*ast.CallExpr)
+			if !ok || len(call.Args) != 1 {
+				return true
+			}
+			cn := core.CalleeName(info, call)
+			if !strings.HasSuffix(cn, ".Field") || !strings.HasPrefix(cn, "decoder.") {
+				return true
+			}
+			n++
+			rc.Touch(fn)
+			key := fn + "/selector-compared-with-decoded-key"
+			// string(key) → key
+			arg := core.Unparen(call.Args[0])
+			if conv, ok := arg.(*ast.CallExpr); ok && len(conv.Args) == 1 {
+				if tv, ok := info.Types[conv.Fun]; ok && tv.IsType() {
+					arg = core.Unparen(conv.Args[0])
+				}
+			}
+			obj := core.ObjOf(info, arg)
+			if obj == nil {
+				rc.Unknown(key, call.Pos(), "the argument of Field is not a variable")
+				return true
+			}
+			var defs []ast.Expr
+			ast.Inspect(fd.Body, func(k ast.Node) bool {
+				if as, ok := k.(*ast.AssignStmt); ok {
+					for i, l := range as.Lhs {
+						if core.ObjOf(info, l) == obj {
+							if len(as.Rhs) == len(as.Lhs) {
+								defs = append(defs, as.Rhs[i])
+							} else if len(as.Rhs) == 1 {
+								defs = append(defs, as.Rhs[0])
+							}
+						}
+					}
+				}
+				return true
+			})
+			good := len(defs) > 0
+			origin := ""
+			for _, d := range defs {
+				c, ok := core.Unparen(d).(*ast.CallExpr)
+				if !ok {
+					good, origin = false, core.Src(p.Fset, d)
+					continue
+				}
+				name := core.CalleeName(info, c)
+				origin = name
+				if !strings.HasPrefix(name, "decoder.stringDecoder.") {
+					good = false
+				}
+			}
+			if good {
+				rc.OK(key, call.Pos(), "the name comes from %s, which unescapes the key", origin)
+			} else {
+				rc.Bad(key, call.Pos(), "the name compared with the selector comes from `%s`, not from the string decoder: an escaped spelling of a key (\\u0061 for a, \\/ for /) is compared as written and never matches its selector", origin)
+			}
+			return true
+		})
+	}
+	if n < 1 {
+		rc.Unknown("decoder/DecodePath-field-lookups", token.NoPos, "no Path.Field call found in a DecodePath method")
+	}
 }
